@@ -1,6 +1,8 @@
 package main
 
 import (
+	"fmt"
+	"os"
 	"golang.org/x/tools/go/callgraph"
 	"golang.org/x/tools/go/ssa"
 )
@@ -74,6 +76,7 @@ func (p *Prog) mayRaise() map[*ssa.Function]bool {
 	}
 	cg := p.CallGraph()
 	set := map[*ssa.Function]bool{}
+	once := p.onceCallers()
 	var work []*ssa.Function
 	for fn := range cg.Nodes {
 		if fn == nil || fn.Blocks == nil {
@@ -98,14 +101,94 @@ func (p *Prog) mayRaise() map[*ssa.Function]bool {
 			continue
 		}
 		for _, e := range n.In {
-			if c := e.Caller.Func; c != nil && !set[c] {
+			c := e.Caller.Func
+			if c == nil || set[c] {
+				continue
+			}
+			if isOnceRunner(c) && len(once[f]) > 0 {
+				continue // see onceCallers: the callback raises at the site that hands it to sync.Once
+			}
+			set[c] = true
+			if os.Getenv("VERIF_DEBUG_RAISE") != "" {
+				fmt.Fprintln(os.Stderr, "raise-why:", fname(c), "<-", fname(f))
+			}
+			work = append(work, c)
+		}
+		for _, c := range once[f] {
+			if !set[c] {
 				set[c] = true
 				work = append(work, c)
 			}
 		}
 	}
 	p.raises = set
+	if dbg := os.Getenv("VERIF_DEBUG_RAISE"); dbg != "" {
+		// print one raising callee chain from the named function
+		for fn := range set {
+			if fname(fn) != dbg {
+				continue
+			}
+			seen := map[*ssa.Function]bool{}
+			for cur := fn; cur != nil && !seen[cur]; {
+				seen[cur] = true
+				fmt.Fprintln(os.Stderr, "raise-chain:", fname(cur))
+				var next *ssa.Function
+				if n := cg.Nodes[cur]; n != nil {
+					for _, e := range n.Out {
+						if f := e.Callee.Func; f != nil && set[f] && !seen[f] && (!isOnceRunner(cur) || len(once[f]) == 0) {
+							next = f
+							break
+						}
+					}
+				}
+				cur = next
+			}
+		}
+	}
 	return set
+}
+
+// isOnceRunner: sync.(*Once).Do / doSlow. The call graph is context-insensitive: every function ever
+// handed to any Once.Do is a callee of doSlow, so one raising callback in the module would make every
+// user of a sync.Once — the standard library's own (os.Open, net, time zone loading) — "may raise".
+// Once.Do runs its argument before it returns and keeps no reference, so the exact statement is: the
+// callback can raise at the call site that passes it.
+func isOnceRunner(fn *ssa.Function) bool {
+	if fn == nil || fn.Pkg == nil || fn.Pkg.Pkg.Path() != "sync" {
+		return false
+	}
+	return recvNamed(fn) == "Once" && (fn.Name() == "Do" || fn.Name() == "doSlow")
+}
+
+// onceCallers: callback function → the functions that pass it to sync.(*Once).Do.
+func (p *Prog) onceCallers() map[*ssa.Function][]*ssa.Function {
+	out := map[*ssa.Function][]*ssa.Function{}
+	for fn := range p.CallGraph().Nodes {
+		if fn == nil || fn.Blocks == nil {
+			continue
+		}
+		allInstrs(fn, func(in ssa.Instruction) {
+			cc := callOf(in)
+			if cc == nil {
+				return
+			}
+			cal := cc.StaticCallee()
+			if !isOnceRunner(cal) || cal.Name() != "Do" || len(cc.Args) < 2 {
+				return
+			}
+			switch a := cc.Args[1].(type) {
+			case *ssa.MakeClosure:
+				if f, ok := a.Fn.(*ssa.Function); ok {
+					out[f] = append(out[f], fn)
+				}
+			case *ssa.Function:
+				out[a] = append(out[a], fn)
+			}
+			// (a function value of unknown origin is not registered: for it the context-insensitive
+			// edges through doSlow stay in force)
+		})
+	}
+	return out
 }
 
 // siteMayRaise: some callee of this call site may raise a Lua error.
@@ -125,6 +208,18 @@ func (p *Prog) siteMayRaise(in ssa.Instruction) (bool, string) {
 	for _, e := range n.Out {
 		if e.Site == site && e.Callee.Func != nil && set[e.Callee.Func] {
 			return true, fname(e.Callee.Func)
+		}
+	}
+	if cc := site.Common(); isOnceRunner(cc.StaticCallee()) && len(cc.Args) >= 2 {
+		var cb *ssa.Function
+		switch a := cc.Args[1].(type) {
+		case *ssa.MakeClosure:
+			cb, _ = a.Fn.(*ssa.Function)
+		case *ssa.Function:
+			cb = a
+		}
+		if cb != nil && set[cb] {
+			return true, fname(cb)
 		}
 	}
 	return false, ""
